@@ -1,6 +1,5 @@
 #!/usr/bin/env python3
-"""Pins, per property, a fingerprint of every anchored source file of /repo (sha256 of the token stream, so comments and
-layout do not count; raw bytes for non-Python files) into fingerprints.json.  A check run that finds a different
+"""Pins, per property, a fingerprint of every anchored source file of /repo (sha256 of the source lines without blank and comment-only lines; raw bytes for non-Python files) into fingerprints.json.  A check run that finds a different
 fingerprint escalates its exploration to the thorough budget (the model was validated against another text) — that is
 not a violation by itself.  Re-pin after every accepted change of /repo:  python3 tools/pin_fingerprints.py"""
 import ast, glob, hashlib, json, os, sys
@@ -11,17 +10,14 @@ VERIF = os.path.dirname(os.path.dirname(os.path.abspath(__file__)))
 def file_fp(path):
     raw = open(path, "rb").read()
     if path.endswith(".py"):
-        # token stream without comments / blank lines / layout: the same under every Python version
-        import io, tokenize
-        try:
-            toks = []
-            for t in tokenize.generate_tokens(io.StringIO(raw.decode("utf-8", "replace")).readline):
-                if t.type in (tokenize.COMMENT, tokenize.NL, tokenize.NEWLINE, tokenize.ENCODING, tokenize.ENDMARKER):
-                    continue
-                toks.append("<I>" if t.type == tokenize.INDENT else "<D>" if t.type == tokenize.DEDENT else t.string)
-            return hashlib.sha256("\x00".join(toks).encode()).hexdigest()[:20]
-        except (tokenize.TokenError, IndentationError):
-            pass
+        # lines without blank lines, comment-only lines and trailing blanks: the same under every Python version
+        lines = []
+        for ln in raw.decode("utf-8", "replace").splitlines():
+            t = ln.rstrip()
+            if not t or t.lstrip().startswith("#"):
+                continue
+            lines.append(t)
+        return hashlib.sha256("\n".join(lines).encode()).hexdigest()[:20]
     return hashlib.sha256(raw).hexdigest()[:20]
 
 
